@@ -1,5 +1,6 @@
 """C11 — attribute value normalisation and defaults (narrow)."""
 import e6
+import enumflow
 import guards
 from common import Finding, Result
 from facts import BrokenCheck, walk
@@ -188,31 +189,103 @@ def run(facts, tier):
     # ---- C11-2
     st2 = res.rule("C11-2", instances=1)
     h = facts.fn("xml_info::normalize_ws")
-    consts = []
-    repl = []
+    # the set of characters that are replaced, whatever the spelling of the pattern: a char / one-char string literal,
+    # char::from_u32(_unchecked)(literal), an array or slice of those, or a named constant holding one of these
+    def _chars(a, depth=0):
+        k = a.get("k")
+        if k == "Lit" and a.get("t") == "char":
+            return {int(a["v"])}
+        if k == "Lit" and a.get("t") == "str" and len(a["v"]) == 1:
+            return {ord(a["v"])}
+        if k == "Call" and str(a["f"].get("path", "")).split("::")[-1] in ("from_u32_unchecked", "from_u32", "from") and a["args"] \
+                and a["args"][0].get("k") == "Lit" and a["args"][0].get("t") != "str":
+            return {int(a["args"][0]["v"])}
+        if k in ("AddrOf", "Cast", "Unary") and "a" in a:
+            return _chars(a["a"], depth)
+        if k == "Array":
+            out = set()
+            for x in a.get("es", []):
+                c = _chars(x, depth)
+                if c is None:
+                    return None
+                out |= c
+            return out
+        if k == "MethodCall" and a["m"] in ("unwrap", "as_slice", "as_ref") and not a["args"]:
+            return _chars(a["recv"], depth)
+        if k == "Path" and depth < 3:
+            c = facts.consts.get(a.get("rid") or a.get("id")) or facts.consts_by_path.get(str(a.get("path")))
+            if c is not None:
+                return _chars(c["body"], depth + 1)
+        if k == "Block" and not a.get("stmts") and "expr" in a:
+            return _chars(a["expr"], depth)
+        return None
+    replaced, repl, unknown = set(), [], []
     for m in walk(h["body"]):
-        if m.get("k") == "Call" and str(m["f"].get("path", "")).endswith("from_u32_unchecked") and m["args"]:
-            if m["args"][0].get("k") == "Lit":
-                consts.append(int(m["args"][0]["v"]))
-        if m.get("k") == "MethodCall" and m["m"] == "replace":
-            for a2 in m["args"][1:]:
-                if a2.get("k") == "Lit":
-                    repl.append(a2["v"])
-    ok = sorted(consts) == [0x09, 0x0A, 0x0D, 0x20] and repl and all(r == " " for r in repl) and len(repl) == len(consts)
+        if m.get("k") == "MethodCall" and m["m"] == "replace" and len(m["args"]) == 2:
+            c = _chars(m["args"][0])
+            if c is None:
+                unknown.append(m["args"][0].get("k"))
+            else:
+                replaced |= c
+            repl.append(m["args"][1].get("v") if m["args"][1].get("k") == "Lit" else None)
+    if unknown:
+        raise BrokenCheck("C11-2: a replace() pattern in normalize_ws is not a character constant (%s); shape not recognised" % unknown)
+    consts = sorted(replaced)
+    ok = (replaced | {0x20}) == {0x09, 0x0A, 0x0D, 0x20} and repl and all(r == " " for r in repl)
     res.oblige(1, ok)
+    res.sample({"rule": "C11-2", "replaced": ["#x%X" % c for c in consts], "by": repl})
     if not ok:
         res.add(Finding("C11-2", "normalize_ws", "normalize_ws replaces %s by %s; XML 1.0 3.3.3 says #x20, #xD, #xA, #x9 -> one space"
                         % (["#x%X" % c for c in sorted(consts)], repl), h["file"], h["line"], {}))
     # ---- C11-3
     st3 = res.rule("C11-3", instances=1)
-    t = arms_by_variant(f, "XmlDeclarationAttType")
-    cdata_empty = "CData" in t and not ws(arm_callees(facts, t["CData"]["body"])) and not names(facts, t["CData"])
-    others = "_" in t and {"split", "join"} <= names(facts, t["_"])
-    only_cdata = set(t) == {"CData", "_"}
-    ok = cdata_empty and others and only_cdata
+    # for which declared types is the collapsing of spaces reached?  (enumflow: match / if-let / matches! / helper
+    # predicates over the declared type are decided over the finite set of attribute types, None = not declared)
+    def _collapses(n):
+        if n.get("k") == "MethodCall" and n.get("m") == "join":
+            return True
+        if n.get("k") in ("Call", "MethodCall"):
+            t_ = n if n.get("k") == "MethodCall" else n.get("f", {})
+            g = facts.fns.get(t_.get("rid") or t_.get("id"))
+            if g is not None and "body" in g and g["crate"] == "xml_info":
+                ms = {m.get("m") for m in walk(g["body"]) if m.get("k") == "MethodCall"}
+                return {"split", "join"} <= ms
+        return False
+    try:
+        dom = enumflow.Domain(facts, "Option", "XmlDeclarationAttType", "Some", outer_vars=["None", "Some"],
+                              level_fn=lambda ty: None if "XmlDeclarationAttType" not in ty else ("outer" if "Option<" in ty else "inner"))
+        hits = enumflow.Flow(dom, f).run(_collapses)
+    except enumflow.Unknown as u:
+        raise BrokenCheck("C11-3: %s" % u)
+    reached = set()
+    for _, s_ in hits:
+        reached |= s_
+    want = set(dom.inner_vars) - {"CData"}
+    ok = bool(hits) and reached == want
+    # the collapse itself: split at #x20 (only), drop the empty pieces, join with one #x20
+    def _space(a):
+        return a.get("k") == "Lit" and (a.get("v") == " " or a.get("v") == 32)
+    joins = []
+    for n, _ in hits:
+        if n.get("m") == "join" and n.get("k") == "MethodCall":
+            joins.append(n)
+        else:
+            t_ = n if n.get("k") == "MethodCall" else n.get("f", {})
+            g = facts.fns.get(t_.get("rid") or t_.get("id"))
+            joins += [m for m in walk(g["body"]) if m.get("k") == "MethodCall" and m.get("m") == "join"]
+    for jn in joins:
+        chain, r_ = {}, jn
+        while isinstance(r_, dict) and r_.get("k") == "MethodCall":
+            chain[r_["m"]] = r_
+            r_ = r_.get("recv")
+        form = "split" in chain and chain["split"]["args"] and _space(chain["split"]["args"][0]) and "filter" in chain \
+            and jn["args"] and _space(jn["args"][0]) and not ({"split_whitespace", "split_ascii_whitespace", "trim"} & set(chain))
+        ok = ok and bool(form)
+    res.sample({"rule": "C11-3", "collapse_sites": len(hits), "types": sorted(reached)})
     res.oblige(1, ok)
     if not ok:
-        res.add(Finding("C11-3", "collapse", "collapsing of spaces must be skipped for CDATA only (arms: %s)" % sorted(t), f["file"], f["line"], {}))
+        res.add(Finding("C11-3", "collapse", "collapsing of spaces must be skipped for CDATA (and undeclared attributes) only; it is reached for %s"
+                        % sorted(reached), f["file"], f["line"], {}))
     # ---- C11-4
     st4 = res.rule("C11-4", instances=1)
     e = facts.fn("xml_info::<XmlElement as Element>::attributes")
